@@ -1,5 +1,212 @@
-"""C14 - Text draws the glyph the font's mapping designates, in the right cell  (metadata; generators live here and/or in props/C14_*.py parts)"""
-CLAIMED = False   # set True by the owner once ./check C14 passes with real theorems
+"""C14 - Text draws the glyph the font's mapping designates, in the right cell."""
+from common import *
+import os, re
+
 LEVEL = 'proof'
-LEVEL_TEXT = 'TODO'
-LEVEL_NOTE = 'TODO'
+CLAIMED = True
+RULE = ('correspondence (extracted model vs real library, both recording targets): c14_ds = MonoTextStyle::draw_string + measure_string on SYNTHETIC '
+        'MonoFont records (atlas of any row length incl. not a multiple of / smaller than the cell width, zero cell, spacing 0..3, arbitrary '
+        'baseline and decoration dimensions, StrGlyphMapping with NUL ranges, empty/incomplete/surrogate-spanning ranges, replacement index inside or '
+        'outside the atlas) x all 4x3x3 colour/decoration roles x 4 baselines x strings of mapped, unmapped, control and non-BMP characters x small and '
+        '+-2^20 positions; c14_map = chars/index/contains of random mapping strings; c14_bi / c14_bi_chars / c14_bi_count = every row of the regenerated '
+        'table Gen/FontTable.v against the real constants: all 292 built-in fonts (10 geometry fields) x index of EVERY mapped character + 12 unmapped ones, '
+        'all 14 mapping expansions. search (real built-in fonts only, reference = font.image.pixel() of the cell derived from the public glyph_mapping.index): '
+        'p_c14_font = every font x every mapped character + control/non-BMP characters x 3 colour modes, one glyph at a time, plus index = position, '
+        'distinct indices, cell inside the atlas; p_c14_codepage = every mapping against the standard code page (Python codecs as independent reference): glyph index of every defined character; p_c14_str = random lines x 16 colour/decoration combinations x baselines on random built-in fonts; p_c14_synth = the same reference on the synthetic custom fonts (spacing, odd atlas row lengths, cells outside the atlas draw nothing).')
+EXHAUSTIVE = {'quick': False, 'thorough': False}
+ASSUMPTIONS = ['draw_ok: |position| <= 2^28 and x + n*(cw+spacing) <= 2^28; font_ok: all font fields non-negative (u32) with heights/offsets <= 2^28 '
+               '(the range in which i32/u32 arithmetic of the implementation cannot wrap or saturate; the model is unbounded Z)',
+               'the target is large enough / pixels are compared on an unbounded target; clipping is C03']
+TRUSTED = ['modelled, not verified: the atlas is an abstract bit function (font.image.pixel(x,y) == On); ImageRaw/SubImage pixel order is C09',
+           'translate/gen_fonts.py (regex translator, fails closed on unknown shapes) reads the font constants, the mapping strings and the raw file sizes',
+           'a string is the list of its code points; char ranges skip the surrogate gap as core::ops::RangeInclusive<char> does']
+PARTIAL = []
+LEVEL_TEXT = ('Proof: 21 Coq theorems. For ANY font record (any atlas row length, spacing, decoration dimensions, any glyph-index function) and ANY string, '
+              'the pixel map of the model of MonoTextStyle::draw_string is characterised completely: pixel (dx,dy) of the i-th cell at x + i*(cw+spacing) shows '
+              'the atlas cell the mapping designates (on -> text colour, off -> background or untouched), spacing columns get the background, underline and '
+              'strikethrough cover [x, next.x) at the font offsets (underline on top), nothing else is touched; StrGlyphMapping::index is the position of the first '
+              'occurrence or the replacement index and is injective on mapped characters. For the built-in fonts the facts are decided by vm_compute over '
+              'Gen/FontTable.v, which is regenerated from src/mono_font/generated/*.rs, mapping.rs and fonts/raw on every run: every index (mapped or replacement) '
+              'designates a cell completely inside the atlas, raw length = bytes_per_row*height, records are well formed with spacing 0, the n-th mapped '
+              'character has index n, unmapped characters get the index of "?". The hand-written model is tied to the code by differential runs (see rule).')
+LEVEL_NOTE = ('Trusted: Coq kernel, extraction, OCaml/Rust drivers, the regex translator. The model of draw_string is validated against the real code by '
+              'differential testing, not proved equal to it. Glyph bitmaps themselves (which bits are on) are data, compared pixel by pixel in the search suites.')
+
+
+def trivial(line, res):
+    return res.startswith(' N ') or res in ('', 'none', '0')
+
+
+# ------------------------------------------------------------------ generated table (names only; input selection)
+def table():
+    here = os.path.dirname(os.path.abspath(__file__))
+    src = open(os.path.join(here, '..', 'coq', 'Gen', 'FontTable.v')).read()
+    maps = []
+    for m in re.finditer(r'\(\* \d+: (\w+) \*\)\nDefinition map_\w+ : bmapping := BMapping \[[^\]]*\]\n  \[([^\]]*)\]\n  \[([^\]]*)\]', src):
+        maps.append((m.group(1), [int(v) for v in m.group(3).split(';') if v]))
+    fonts = [(m.group(1), int(m.group(2))) for m in re.finditer(r'\(\* (\w+::FONT_\w+) \*\) BFont \[[^\]]*\] \d+ (\d+) ', src)]
+    return maps, fonts
+
+
+UNMAPPED = [0, 1, 9, 10, 13, 31, 128, 159, 0xFFFD, 0x1F600, 0x10000, 0x10FFFF]
+POOL = [32, 33, 48, 49, 63, 65, 66, 67, 97, 98, 99, 100, 101, 122, 126, 160, 169, 255, 0x416, 0x3A9, 0xFF71]
+
+
+def lst(xs):
+    return J(len(xs), *xs) if xs else '0'
+
+
+def mapping_string(rng):
+    """code points of a StrGlyphMapping string: singles, NUL ranges, empty / incomplete / surrogate spanning ranges"""
+    out = []
+    for _ in range(rng.choice([0, 1, 1, 2, 2, 3, 4])):
+        k = rng.random()
+        if k < 0.45:
+            a = rng.choice([32, 48, 65, 97, 0xC0, 0x410])
+            out += [0, a, a + rng.randrange(0, 12)]
+        elif k < 0.85:
+            out.append(rng.choice(POOL))
+        elif k < 0.9:
+            out += [0, 100, 97]                # start > end: empty range
+        elif k < 0.95:
+            out += [0, 0xD7FE, 0xE001]         # spans the surrogate gap: 4 characters
+        else:
+            out += [0, 0, 2]                   # range starting at NUL itself
+    k = rng.random()
+    if k < 0.06:
+        out += [0]                             # incomplete range markers end the walk
+    elif k < 0.12:
+        out += [0, 97]
+    return out
+
+
+def expand(data):
+    out, i = [], 0
+    while i < len(data):
+        if data[i] == 0:
+            if i + 2 >= len(data):
+                break
+            out += [c for c in range(data[i + 1], data[i + 2] + 1) if not 0xD800 <= c <= 0xDFFF]
+            i += 3
+        else:
+            out.append(data[i])
+            i += 1
+    return out
+
+
+def synth_font(rng, nglyph):
+    cw = rng.choice([0, 1, 2, 3, 4, 5, 6, 7, 8, 9]) if rng.random() < 0.9 else rng.randrange(10, 17)
+    ch = rng.choice([0, 1, 2, 3, 5, 6, 8, 9, 13])
+    k = rng.random()
+    cols = rng.randrange(1, 7)
+    if k < 0.08:
+        w = max(0, cw - rng.randrange(1, 3))   # atlas narrower than one cell
+    else:
+        w = cols * cw + (rng.randrange(0, max(cw, 1)) if rng.random() < 0.4 else 0)
+    rows_needed = (nglyph + cols - 1) // cols + 1
+    rows = rng.choice([1, rows_needed, rows_needed, rng.randrange(1, rows_needed + 2)])
+    h = min(rows * ch + (rng.randrange(0, max(ch, 1)) if rng.random() < 0.3 else 0), 160)
+    w = min(w, 160)
+    sp = rng.choice([0, 0, 0, 1, 2, 3])
+    base = rng.randrange(0, ch + 2)
+    return (w, h, cw, ch, sp, base, rng.randrange(0, ch + 4), rng.choice([0, 1, 1, 2]), rng.randrange(0, ch + 2), rng.choice([0, 1, 1, 3]))
+
+
+def style(rng, k=None):
+    """4 tokens: text colour, background (0 = none), underline, strikethrough (0 none, -1 text colour, n custom)"""
+    k = rng.randrange(16) if k is None else k
+    tc = rng.randrange(1, 250) if k & 1 else 0
+    bc = rng.randrange(1, 250) if k & 2 else 0
+    ul = rng.choice([-1, rng.randrange(1, 250)]) if k & 4 else 0
+    st = rng.choice([-1, rng.randrange(1, 250)]) if k & 8 else 0
+    return (tc, bc, ul, st)
+
+
+def position(rng):
+    k = rng.random()
+    if k < 0.7:
+        return rng.randrange(-40, 41), rng.randrange(-40, 41)
+    if k < 0.85:
+        return rng.randrange(-2 ** 20, 2 ** 20), rng.randrange(-2 ** 20, 2 ** 20)
+    return rng.choice([-2 ** 20, 2 ** 20 - 200]), rng.choice([-2 ** 20, 2 ** 20 - 200])
+
+
+def text_from(rng, chars, maxlen=6):
+    n = rng.choice([0, 1, 1, 2, 3, 4, maxlen])
+    out = []
+    for _ in range(n):
+        k = rng.random()
+        if chars and k < 0.7:
+            out.append(rng.choice(chars))
+        elif k < 0.85:
+            out.append(rng.choice(UNMAPPED))
+        else:
+            out.append(rng.choice(POOL))
+    return [c for c in out if not 0xD800 <= c <= 0xDFFF]
+
+
+def cases(tier, rng):
+    maps, fonts = table()
+    yield 'c14_bi_count'
+    for name, _ in maps:
+        yield J('c14_bi_chars', name)
+    yield 'c14_bi_chars NO_SUCH'
+    for name, mi in fonts:
+        yield J('c14_bi', name, lst(maps[mi][1] + UNMAPPED))
+    yield 'c14_bi ascii::FONT_1X1 0'
+    n = 3000 if tier == 'quick' else 60000
+    for _ in range(n):
+        data = mapping_string(rng)
+        chars = expand(data)
+        probes = [rng.choice(chars) for _ in range(3) if chars] + [rng.choice(POOL + UNMAPPED) for _ in range(3)]
+        yield J('c14_map', rng.randrange(0, 40), lst(data), lst(probes))
+    n = 4000 if tier == 'quick' else 80000
+    for k in range(n):
+        data = mapping_string(rng)
+        chars = expand(data)
+        f = synth_font(rng, len(chars))
+        x, y = position(rng)
+        repl = rng.randrange(0, len(chars) + 3)
+        yield J('c14_ds', *f, *style(rng, k % 16), x, y, rng.randrange(4), repl, lst(data), lst(text_from(rng, chars)))
+
+
+def codepage(name):
+    """(glyph index, code point) for every byte the standard code page defines: 0x20..0x7F, then 0xA0.. (independent reference: Python codecs)"""
+    if name == 'ASCII':
+        return [(b - 0x20, b) for b in range(0x20, 0x80)]
+    if name.startswith('ISO_8859_'):
+        codec, hi = 'iso8859_' + name.split('_')[2], range(0xA0, 0x100)
+    elif name == 'JIS_X0201':
+        codec, hi = 'shift_jis', range(0xA1, 0xE0)
+    else:
+        return None
+    out = [(b - 0x20, b) for b in range(0x20, 0x80)]
+    for b in hi:
+        try:
+            out.append((b - 0xA0 + 0x60, ord(bytes([b]).decode(codec))))
+        except UnicodeDecodeError:
+            pass                                   # position not defined by the standard
+    return out
+
+
+def search(tier, rng):
+    maps, fonts = table()
+    for name, _ in maps:
+        cp = codepage(name)
+        if cp is None:
+            yield J('p_c14_codepage', name, 'UNKNOWN-CODE-PAGE')   # a new mapping needs a reference here: fail closed
+        else:
+            yield J('p_c14_codepage', name, len(cp) * 2, *[v for pr in cp for v in pr])
+    for name, _ in fonts:
+        yield J('p_c14_font', name, rng.randrange(-30, 31), rng.randrange(-30, 31))
+    n = 3000 if tier == 'quick' else 60000
+    for k in range(n):
+        name, mi = fonts[rng.randrange(len(fonts))]
+        x, y = position(rng)
+        yield J('p_c14_str', name, *style(rng, k % 16), x, y, rng.randrange(4), lst(text_from(rng, maps[mi][1], 8)))
+    for k in range(n):
+        data = mapping_string(rng)
+        chars = expand(data)
+        f = synth_font(rng, len(chars))
+        x, y = position(rng)
+        yield J('p_c14_synth', *f, *style(rng, k % 16), x, y, rng.randrange(4), rng.randrange(0, len(chars) + 3), lst(data), lst(text_from(rng, chars)))
